@@ -377,6 +377,77 @@ fn mode_c10(a: &Args) -> Value {
     json!({"evaluations": evaluations + replayed, "work_items": work.len() as u64 + replayed, "replayed_reports": replayed, "cells": cells, "slivers": slivers, "violations": violations, "samples": samples})
 }
 
+// ------------------------------------------------------------------------------------------ C02
+/// A daemon incarnation over a segment its predecessor left in the middle of an update, stopped
+/// (ThreadAbort, as when another thread died) after 0..3 outcomes: what a new client then reads
+/// must not contain any word of the update that was never completed.
+fn mode_c02stop(a: &Args) -> Value {
+    let dir = workdir("c02stop");
+    let path = dir.join("shm");
+    let mut violations = Vec::new();
+    let mut evaluations = 0u64;
+    let mut results: BTreeMap<String, u64> = BTreeMap::new();
+    let rec_a: [i64; 5] = [1001, 1002, 1003, 1004, 1005];
+    let rec_b: [i64; 5] = [2001, 2002, 2003, 2004, 2005];
+    let mut rng = Rng::new(a.seed ^ 0xC02);
+    let mut case = 0u64;
+    for gen in [1u16, 3, 12345, 65535, 65533] {
+        for words in 0..=7usize {
+            for k in 0..4usize {
+                case += 1;
+                if case % a.nshards != a.shard {
+                    continue;
+                }
+                // header + record A, then the first `words` words overwritten with B's
+                let mut b = Vec::with_capacity(72);
+                b.extend_from_slice(&0x414D5A4Eu32.to_ne_bytes());
+                b.extend_from_slice(&0x43420200u32.to_ne_bytes());
+                b.extend_from_slice(&72u32.to_ne_bytes());
+                b.extend_from_slice(&1u16.to_ne_bytes());
+                b.extend_from_slice(&gen.to_ne_bytes());
+                for w in 0..5 {
+                    b.extend_from_slice(&(if w < words { rec_b[w] } else { rec_a[w] }).to_ne_bytes());
+                }
+                let (drift, reserved) = if words > 5 { (2006u32, 2007u32) } else { (1006u32, 1007u32) };
+                b.extend_from_slice(&drift.to_ne_bytes());
+                b.extend_from_slice(&reserved.to_ne_bytes());
+                b.extend_from_slice(&(if words > 6 { 2i32 } else { 1i32 }).to_ne_bytes());
+                b.extend_from_slice(&0u32.to_ne_bytes());
+                std::fs::write(&path, &b).unwrap();
+                clock::fixed::set((T0_REAL_S, 0), (5000, 0));
+                let mut d = Daemon::start_plain(&path, 1000);
+                let mut sent = Vec::new();
+                for _ in 0..k {
+                    let o = random_outcome(&mut rng, true);
+                    sent.push(o.name());
+                    d.send(o.message((4000, 0), T0_REAL_S as i128 * NS));
+                }
+                d.stop();
+                evaluations += 1;
+                let gen_after = generation_of(&path).unwrap_or(0);
+                let got = read_fresh(&path);
+                let key = match &got {
+                    Ok(r) if r.as_of == (0, 0) && r.bound == 0 && r.void_after == (0, 0) => "zero-record".to_string(),
+                    Ok(_) => "a-record".to_string(),
+                    Err(e) => format!("error:{}", e.split(':').next().unwrap_or("?")),
+                };
+                *results.entry(format!("{}|outcomes-before-stop-{}", key, k)).or_insert(0) += 1;
+                if let Ok(r) = got {
+                    let fields = [r.as_of.0, r.as_of.1, r.void_after.0, r.void_after.1, r.bound, r.drift as i64, r.reserved as i64];
+                    let from_b = fields.iter().filter(|v| (2001..=2007).contains(*v)).count();
+                    let from_a = fields.iter().filter(|v| (1001..=1007).contains(*v)).count();
+                    if from_b > 0 || (from_a > 0 && from_a < 7) {
+                        violation(&mut violations, a, "C02", "words-of-an-update-never-completed", format!("segment left at generation {} with the first {} words of an update written over the previous record; a new daemon started on it, handled {:?} and was stopped; generation is now {} and a new client reads {:?}: {} fields of the unfinished update, {} of the record before it", gen, words, sent, gen_after, r, from_b, from_a),
+                                  json!({"generation": gen, "words": words, "outcomes": sent}));
+                    }
+                }
+            }
+        }
+    }
+    let _ = std::fs::remove_dir_all(&dir);
+    json!({"evaluations": evaluations, "results": results, "violations": violations})
+}
+
 // ------------------------------------------------------------------------------------ C08 / C09
 
 #[derive(Debug, Clone, Copy, PartialEq)]
@@ -763,6 +834,10 @@ fn main() {
         "c10" => {
             clock::fixed::install();
             mode_c10(&a)
+        }
+        "c02stop" => {
+            clock::fixed::install();
+            mode_c02stop(&a)
         }
         "c08" => {
             clock::fixed::install();
